@@ -54,6 +54,12 @@ def run(ctx):
                 sig = "c16:deadlock:" + "+".join(sorted({s for p in inv for s in p["sites"]}))[:200]
                 ctx.violation(sig, "Locks.tla: these three lock programs, recorded in scenario %s, deadlock in some interleaving: %s" % (sc, desc[:1500]),
                               {"programs": inv, "tlc": tlcout[-3000:]})
+    # the client's retry queue (RetryQueue.tla): found to leave its mutex locked (F21); kept under this property
+    for cfg, exp in [("ok", "ok"), ("ok_r2", "ok"), ("dev_noheadcheck", "violates:NeverWedged"), ("dev_offbyone", "violates:FailedOnlyAfterRetries")]:
+        ctx.mc("RetryQueue", "RetryQueue_%s.cfg" % cfg, expect=exp, timeout=600)
+    rout, rres = ctx.go_test("c16", "^TestRetryQueue$", timeout=1500, name="retry")
+    if rres is not None:
+        ctx.validate("RetryQueueTrace", "RetryQueueTrace.cfg", os.path.join(rout, "trace.ndjson"), sigprefix="c16:retryqueue", timeout=900)
     # the same generated programs under the race detector (side oracle: not decided by the specification)
     ctx.go_test("c16", "^TestC16$", timeout=1700, race=True, name="race")
     ctx.assumptions += [
@@ -65,7 +71,7 @@ def run(ctx):
 
 
 META = {
-    "text": "Every mutex of the library is instrumented under the verif tag (internal/sync); randomly generated concurrent programs (2..16 goroutines, 34 kinds of operations over server, namespace, socket, manager and adapter, operations issued from event, acknowledgement, connection and disconnect handlers too, GOMAXPROCS 1/2/4/16, injected yields) run against a real server with real clients under a watchdog. The recorded Lock/RLock/Unlock/RUnlock sequences of every goroutine stretch that held two locks at once become the programs of Locks.tla; TLC runs every pair of programs of a scenario (also a program against itself) through all interleavings under sync.Mutex / sync.RWMutex semantics with writer preference and checks that somebody can always move (no deadlock), and the trace itself is checked for mutexes still held or awaited after everything ended. Sample inputs (order inversion, recursive read lock) show the model is not vacuous. The data-race clause is outside what a TLA+ specification decides: the same programs also run under the race detector as a side oracle.",
+    "text": "Every mutex of the library is instrumented under the verif tag (internal/sync); randomly generated concurrent programs (2..16 goroutines, 34 kinds of operations over server, namespace, socket, manager and adapter, operations issued from event, acknowledgement, connection and disconnect handlers too, GOMAXPROCS 1/2/4/16, injected yields) run against a real server with real clients under a watchdog. The recorded Lock/RLock/Unlock/RUnlock sequences of every goroutine stretch that held two locks at once become the programs of Locks.tla; TLC runs every pair of programs of a scenario (also a program against itself) through all interleavings under sync.Mutex / sync.RWMutex semantics with writer preference and checks that somebody can always move (no deadlock), and the trace itself is checked for mutexes still held or awaited after everything ended. Sample inputs (order inversion, recursive read lock) show the model is not vacuous. The client's retry queue (Retries > 0), where a mutex left locked was found (F21), has a specification of its own (RetryQueue.tla: at-least-once, in order, one user acknowledgement, never wedged) with MC, deviations and trace validation of scripted and random outage / slow-ack / mute-server scenarios. The data-race clause is outside what a TLA+ specification decides: the same programs also run under the race detector as a side oracle.",
     "note": "Partial: deadlocks through channels / WaitGroups are covered only by the watchdog; potential deadlocks are reported without happens-before pruning; data races: race detector only.",
     "technique": "TLA+/TLC model checking of lock programs recorded from the implementation (trace -> specification input) + watchdog; race detector as side oracle",
     "design_ref": "DESIGN.md 4.12, 5 (C16)",
